@@ -1,5 +1,60 @@
-From V Require Import Base.Util C20.Model C19.Model C19.Spec C19.Properties.
-Check (C19_dead_required : forall parse_o emit_o st t,
+(** Pinned statements of the C19 property theorems: compiled on every check, so a theorem
+    cannot be weakened silently. *)
+From V Require Import Base.Util C20.Model C19.Model C19.Spec C19.Proofs C19.Proofs3 C19.Corr C19.Properties.
+From Coq Require Import Sorted.
+
+Check (C19_ids_fresh : forall parse_o emit_o h,
+  StronglySorted N.lt (new_ids (run parse_o emit_o init_state h))
+  /\ Forall (fun t => (1 <= t)%N) (new_ids (run parse_o emit_o init_state h))).
+Check (C19_dead_id_is_error : forall parse_o emit_o st t,
   find_task t (tasks st) = None ->
-  step parse_o emit_o st (Required t) = (Some (set_result st (VText TASK_NOT_FOUND)), RBool false)).
-Print Assumptions C19_dead_required.
+  step parse_o emit_o st (Required t) = (Some (set_result st (VText TASK_NOT_FOUND)), RBool false)
+  /\ (forall f src, step parse_o emit_o st (Load t f src) = (Some (set_result st (VText TASK_NOT_FOUND)), RBool false))
+  /\ step parse_o emit_o st (Emit t) = (Some (set_result st (VText TASK_NOT_FOUND)), RBool false)
+  /\ step parse_o emit_o st (Free t) = (Some st, RUnit)).
+Check (C19_never_issued_or_zero_is_dead : forall parse_o emit_o h st t,
+  exec parse_o emit_o init_state h = Some st ->
+  (t = 0%N \/ (next_id st <= t)%N) -> find_task t (tasks st) = None).
+Check (C19_freed_stays_dead : forall parse_o emit_o h1 h2 t st1 st2,
+  exec parse_o emit_o init_state h1 = Some st1 -> (t < next_id st1)%N ->
+  exec parse_o emit_o st1 (Free t :: h2) = Some st2 -> find_task t (tasks st2) = None).
+Check (C19_required_exact : forall parse_o x,
+  (forall p, In p (required_of parse_o x) ->
+     exists from src imp, In (from, src) (t_files x) /\ In imp (imports_of parse_o src)
+                          /\ p = resolve_s from imp /\ contains_file p (t_files x) = false)
+  /\ (forall from src imp, In (from, src) (t_files x) -> In imp (imports_of parse_o src) ->
+        contains_file (resolve_s from imp) (t_files x) = false ->
+        mem_path (resolve_s from imp) (required_of parse_o x) = true)
+  /\ nodup_path (required_of parse_o x) = true).
+Check (C19_model_meets_spec : forall parse_o emit_o h,
+  total parse_o emit_o ->
+  spec_check parse_o emit_o false s_init h (run parse_o emit_o init_state h) = true).
+Check (C19_model_meets_spec_modulo_oracle_traps : forall parse_o emit_o h,
+  spec_check parse_o emit_o true s_init h (run parse_o emit_o init_state h) = true).
+Check (C19_isolation : forall parse_o emit_o t h, (0 < t)%N ->
+  let rs := api_run parse_o emit_o init_state h in
+  api_run parse_o emit_o init_state (map fst (proj t h rs)) = map snd (proj t h rs)).
+Check (C19_emit_equals_fresh : forall parse_o emit_o h st t x,
+  exec parse_o emit_o init_state h = Some st -> find_task t (tasks st) = Some x ->
+  api_run parse_o emit_o init_state (fresh_acalls x ++ [AEmit 1])
+  = AId 1 :: repeat AOk (length (tl (t_files x))) ++ [snd (api_step parse_o emit_o st (AEmit t))]).
+Check (C19_emit_trap_refuted : agree w_emit_trap = true /\ holds w_emit_trap = false).
+Check (C19_parse_trap_refuted :
+  (agree w_parse_trap = true /\ holds w_parse_trap = false)
+  /\ (agree w_parse_trap0 = true /\ holds w_parse_trap0 = false)).
+(* the definitions the statements rest on are pinned too *)
+Check (eq_refl : total = fun parse_o emit_o =>
+  (forall src, parse_o src <> PTrap) /\ (forall r fs, emit_o r fs <> ETrap)).
+Check (eq_refl : holds = fun c =>
+  spec_check (ptab_lookup (c_ptab c)) (etab_lookup (c_etab c)) false s_init (c_calls c) (c_resps c)).
+Print Assumptions C19_ids_fresh.
+Print Assumptions C19_dead_id_is_error.
+Print Assumptions C19_never_issued_or_zero_is_dead.
+Print Assumptions C19_freed_stays_dead.
+Print Assumptions C19_required_exact.
+Print Assumptions C19_model_meets_spec.
+Print Assumptions C19_model_meets_spec_modulo_oracle_traps.
+Print Assumptions C19_isolation.
+Print Assumptions C19_emit_equals_fresh.
+Print Assumptions C19_emit_trap_refuted.
+Print Assumptions C19_parse_trap_refuted.
